@@ -2,6 +2,7 @@ import CstModel.Driver.BuilderArea
 import CstModel.Driver.InternArea
 import CstModel.Driver.GreenArea
 import CstModel.Driver.RedArea
+import CstModel.Driver.TextArea
 open Cst Cst.Drv
 
 def sessionStep (s : DState) : List String → Option (DState × String)
@@ -42,7 +43,10 @@ def stepLine (s : DState) (line : String) : DState × String :=
           | none =>
             match fmtStep s ws with
             | some r => r
-            | none => (s, "bad-op")
+            | none =>
+              match textStep s ws with
+              | some r => r
+              | none => (s, "bad-op")
 
 partial def loop (h : IO.FS.Stream) (out : IO.FS.Stream) (s : DState) : IO Unit := do
   let line ← h.getLine
